@@ -4,13 +4,13 @@ C11 at full strength over the model — a container whose content packs are part
 For *every* way of disturbing the file system outside the entry file (any subset of the content
 packs removed, replaced by a directory, or replaced by a different valid pack):
 
-1. frame: a pack whose source file is untouched reads exactly as before (`c11_frame*`);
+1. frame: a pack whose source file is untouched reads exactly as before (`missing_frame*`);
 2. missing: a listed pack whose recorded location is absent / holds only other uuids is reported
-   as `missing` with its manifest description (`c11_missing_of_unavailable`);
+   as `missing` with its manifest description (`missing_missing_of_unavailable`);
 3. totality: every lookup that answered before still answers, with the same answer or `missing`
-   (`c11_total*`);
+   (`missing_total*`);
 4. check: `Container::check` skips the missing packs and still covers every present one
-   (`c11_check_*`).
+   (`missing_check_*`).
 
 A *directory* at a recorded location is, for the model, the same state as a removed file: `FS` holds
 regular files only, so `fs.get loc = none` (`fs::File::open` + `read` fails on a directory and
@@ -18,7 +18,7 @@ regular files only, so `fs.get loc = none` (`fs::File::open` + `read` fails on a
 -/
 import JubakoModel.Model.Container
 import JubakoModel.Lemmas.Container
-import JubakoModel.Theorems.C11
+import JubakoModel.Lemmas.MissingBase
 
 namespace Jubako
 
@@ -260,7 +260,7 @@ theorem getPackOf_frame (fs fs' : FS) (c : ContainerView) (info : PackInfo)
     as before as soon as the entry file is untouched and the pack is enclosed in the entry file or
     its recorded location is untouched.  No assumption on what the answer was: a found pack is found
     with the same bytes, and an error stays the same error. -/
-theorem c11_frame (fs fs' : FS) (c : ContainerView) (packId : Nat)
+theorem missing_frame (fs fs' : FS) (c : ContainerView) (packId : Nat)
     (hentry : FS.get fs' c.entryFile = FS.get fs c.entryFile)
     (hkeep : ∀ info, c.infoOf packId = some info →
       c.Encloses info.uuid ∨
@@ -278,37 +278,37 @@ theorem c11_frame (fs fs' : FS) (c : ContainerView) (packId : Nat)
       · exact Or.inr ⟨henc, h⟩
 
 /-- the same, phrased with `agreeOn`: for every pack id at once -/
-theorem c11_frame_agreeOn (fs fs' : FS) (c : ContainerView) (keep : String → Prop)
+theorem missing_frame_agreeOn (fs fs' : FS) (c : ContainerView) (keep : String → Prop)
     (hag : FS.agreeOn fs fs' keep) (hentry : keep c.entryFile) (packId : Nat)
     (hkeep : ∀ info, c.infoOf packId = some info →
       c.Encloses info.uuid ∨ keep (locationString info.location)) :
     containerGetPack fs' c packId = containerGetPack fs c packId := by
-  apply c11_frame fs fs' c packId (hag _ hentry)
+  apply missing_frame fs fs' c packId (hag _ hentry)
   intro info hinfo
   rcases hkeep info hinfo with h | h
   · exact Or.inl h
   · exact Or.inr (hag _ h)
 
 /-- "everything else still reads": a pack found in `fs` is found, with the same bytes, in `fs'` -/
-theorem c11_available_found (fs fs' : FS) (c : ContainerView) (packId : Nat) (b : Bytes)
+theorem missing_available_found (fs fs' : FS) (c : ContainerView) (packId : Nat) (b : Bytes)
     (hentry : FS.get fs' c.entryFile = FS.get fs c.entryFile)
     (hkeep : ∀ info, c.infoOf packId = some info →
       c.Encloses info.uuid ∨
       FS.get fs' (locationString info.location) = FS.get fs (locationString info.location))
     (hfound : containerGetPack fs c packId = .ok (.found b)) :
     containerGetPack fs' c packId = .ok (.found b) := by
-  rw [c11_frame fs fs' c packId hentry hkeep, hfound]
+  rw [missing_frame fs fs' c packId hentry hkeep, hfound]
 
 /-! ### 2. missing, for every subset -/
 
 theorem fsLocate_unavailable (fs : FS) (u : Bytes) (loc : String) (h : Unavailable fs u loc) :
     fsLocate fs u loc = .ok none := by
   rcases h with h | ⟨f, packs, hf, hb, hn⟩
-  · exact c11_absent_file fs u loc h
+  · exact missing_absent_file fs u loc h
   · by_cases hne : loc = ""
     · unfold fsLocate
       rw [if_pos hne]
-    · exact c11_other_pack fs u loc f packs hf hne hb hn
+    · exact missing_other_pack fs u loc f packs hf hne hb hn
 
 theorem not_encloses_iff (c : ContainerView) (u : Bytes) :
     ¬ c.Encloses u ↔ ∀ p ∈ c.entryPacks, p.uuid ≠ u := by
@@ -338,7 +338,7 @@ theorem locate_unavailable (fs : FS) (c : ContainerView) (u : Bytes) (loc : Stri
     whose recorded location is absent (removed / a directory) or holds only packs with other uuids,
     `get_pack` answers `missing` with exactly that pack's manifest description — whatever the state
     of every other file. -/
-theorem c11_missing_of_unavailable (fs' : FS) (c : ContainerView) (packId : Nat) (info : PackInfo)
+theorem missing_missing_of_unavailable (fs' : FS) (c : ContainerView) (packId : Nat) (info : PackInfo)
     (hinfo : c.infoOf packId = some info)
     (hne : ∀ p ∈ c.entryPacks, p.uuid ≠ info.uuid)
     (hun : Unavailable fs' info.uuid (locationString info.location)) :
@@ -349,7 +349,7 @@ theorem c11_missing_of_unavailable (fs' : FS) (c : ContainerView) (packId : Nat)
   rfl
 
 /-- … in particular never an error, a panic, a hang, a fault, `unknown` or `found` -/
-theorem c11_missing_exclusive (fs' : FS) (c : ContainerView) (packId : Nat) (info : PackInfo)
+theorem missing_missing_exclusive (fs' : FS) (c : ContainerView) (packId : Nat) (info : PackInfo)
     (hinfo : c.infoOf packId = some info)
     (hne : ∀ p ∈ c.entryPacks, p.uuid ≠ info.uuid)
     (hun : Unavailable fs' info.uuid (locationString info.location)) :
@@ -357,7 +357,7 @@ theorem c11_missing_exclusive (fs' : FS) (c : ContainerView) (packId : Nat) (inf
     containerGetPack fs' c packId ≠ .hang ∧ containerGetPack fs' c packId ≠ .fault ∧
     (∀ b, containerGetPack fs' c packId ≠ .ok (.found b)) ∧
     containerGetPack fs' c packId ≠ .ok .unknown := by
-  rw [c11_missing_of_unavailable fs' c packId info hinfo hne hun]
+  rw [missing_missing_of_unavailable fs' c packId info hinfo hne hun]
   refine ⟨?_, ?_, ?_, ?_, ?_, ?_⟩ <;> intros <;> intro h <;> cases h
 
 /-! ### 3. totality -/
@@ -365,7 +365,7 @@ theorem c11_missing_exclusive (fs' : FS) (c : ContainerView) (packId : Nat) (inf
 /-- **C11 totality (3).**  If `fs'` is `fs` with any subset of the content packs made unavailable,
     every lookup that answered in `fs` answers in `fs'`: with the same answer, or with `missing` and
     the description of the requested pack. -/
-theorem c11_total (fs fs' : FS) (c : ContainerView) (hd : Disturbed fs fs' c) (packId : Nat)
+theorem missing_total (fs fs' : FS) (c : ContainerView) (hd : Disturbed fs fs' c) (packId : Nat)
     (r : PackLookup) (hok : containerGetPack fs c packId = .ok r) :
     containerGetPack fs' c packId = .ok r ∨
     ∃ info, c.infoOf packId = some info ∧ containerGetPack fs' c packId = .ok (.missing info) := by
@@ -379,7 +379,7 @@ theorem c11_total (fs fs' : FS) (c : ContainerView) (hd : Disturbed fs fs' c) (p
     by_cases henc : c.Encloses info.uuid
     · left
       rw [← hok]
-      apply c11_frame fs fs' c packId hentry
+      apply missing_frame fs fs' c packId hentry
       intro i hi
       rw [hinfo] at hi
       cases hi
@@ -388,22 +388,22 @@ theorem c11_total (fs fs' : FS) (c : ContainerView) (hd : Disturbed fs fs' c) (p
       · exact absurd h henc
       · left
         rw [← hok]
-        apply c11_frame fs fs' c packId hentry
+        apply missing_frame fs fs' c packId hentry
         intro i hi
         rw [hinfo] at hi
         cases hi
         exact Or.inr h
       · right
-        exact ⟨info, rfl, c11_missing_of_unavailable fs' c packId info hinfo
+        exact ⟨info, rfl, missing_missing_of_unavailable fs' c packId info hinfo
           ((not_encloses_iff c _).mp henc) h⟩
 
 /-- the three-way answer of the statement: a pack found before is found with the same bytes or
     reported missing with its description — never an error or a panic, never other bytes -/
-theorem c11_total_found (fs fs' : FS) (c : ContainerView) (hd : Disturbed fs fs' c) (packId : Nat)
+theorem missing_total_found (fs fs' : FS) (c : ContainerView) (hd : Disturbed fs fs' c) (packId : Nat)
     (b : Bytes) (hok : containerGetPack fs c packId = .ok (.found b)) :
     containerGetPack fs' c packId = .ok (.found b) ∨
     ∃ info, c.infoOf packId = some info ∧ containerGetPack fs' c packId = .ok (.missing info) :=
-  c11_total fs fs' c hd packId (.found b) hok
+  missing_total fs fs' c hd packId (.found b) hok
 
 /-! ### 4. the container check covers the packs that are present -/
 
@@ -563,7 +563,7 @@ theorem stepCheck_frame (H : Bytes → Bytes) (fs fs' : FS) (c : ContainerView) 
 
 /-- **C11 check (4a).**  If the manifest and the directory pack verify and every *present* content
     pack verifies, the container check passes — regardless of which packs are missing. -/
-theorem c11_check_present_ok (H : Bytes → Bytes) (fs' : FS) (c : ContainerView)
+theorem missing_check_present_ok (H : Bytes → Bytes) (fs' : FS) (c : ContainerView)
     (hm : manifestCheck H c.manifest = .ok true) (hdir : packCheck H id c.dirPack = .ok true)
     (hpacks : ∀ info ∈ c.contentInfos,
       locate fs' c.entryFile c.entryPacks info.uuid (locationString info.location) = .ok none ∨
@@ -584,7 +584,7 @@ theorem c11_check_present_ok (H : Bytes → Bytes) (fs' : FS) (c : ContainerView
 /-- **C11 check (4b).**  If some present (located) content pack does not verify, the container
     check does not answer `true` — whatever the state of the other packs: an earlier missing pack
     does not stop the walk before a later damaged one. -/
-theorem c11_check_damaged (H : Bytes → Bytes) (fs' : FS) (c : ContainerView) (info : PackInfo)
+theorem missing_check_damaged (H : Bytes → Bytes) (fs' : FS) (c : ContainerView) (info : PackInfo)
     (l : Located) (hmem : info ∈ c.contentInfos)
     (hloc : locate fs' c.entryFile c.entryPacks info.uuid (locationString info.location) = .ok (some l))
     (hbad : locatedCheck H fs' l ≠ .ok true) :
@@ -599,7 +599,7 @@ theorem c11_check_damaged (H : Bytes → Bytes) (fs' : FS) (c : ContainerView) (
     pack is either missing or present with a verdict, the container check answers the conjunction
     of the verdicts of the present packs: the missing ones count for nothing, the present ones all
     count. -/
-theorem c11_check_verdict (H : Bytes → Bytes) (fs' : FS) (c : ContainerView) (v : PackInfo → Bool)
+theorem missing_check_verdict (H : Bytes → Bytes) (fs' : FS) (c : ContainerView) (v : PackInfo → Bool)
     (hm : manifestCheck H c.manifest = .ok true) (hdir : packCheck H id c.dirPack = .ok true)
     (hpacks : ∀ info ∈ c.contentInfos,
       (locate fs' c.entryFile c.entryPacks info.uuid (locationString info.location) = .ok none ∧
@@ -619,7 +619,7 @@ theorem c11_check_verdict (H : Bytes → Bytes) (fs' : FS) (c : ContainerView) (
 
 /-- a damaged present pack makes the verdict exactly `false` (not an error) when every other
     content pack is missing or present with a verdict -/
-theorem c11_check_damaged_false (H : Bytes → Bytes) (fs' : FS) (c : ContainerView)
+theorem missing_check_damaged_false (H : Bytes → Bytes) (fs' : FS) (c : ContainerView)
     (v : PackInfo → Bool) (info : PackInfo) (hmem : info ∈ c.contentInfos) (hv : v info = false)
     (hm : manifestCheck H c.manifest = .ok true) (hdir : packCheck H id c.dirPack = .ok true)
     (hpacks : ∀ info ∈ c.contentInfos,
@@ -628,14 +628,14 @@ theorem c11_check_damaged_false (H : Bytes → Bytes) (fs' : FS) (c : ContainerV
       ∃ l, locate fs' c.entryFile c.entryPacks info.uuid (locationString info.location) = .ok (some l) ∧
         locatedCheck H fs' l = .ok (v info)) :
     containerCheck H fs' c = .ok false := by
-  rw [c11_check_verdict H fs' c v hm hdir hpacks]
+  rw [missing_check_verdict H fs' c v hm hdir hpacks]
   congr 1
   rw [List.all_eq_false]
   exact ⟨info, hmem, by rw [hv]; simp⟩
 
 /-- **C11 check under disturbance.**  A container whose check passes keeps passing when any subset
     of its content packs is made unavailable … -/
-theorem c11_check_disturbed_ok (H : Bytes → Bytes) (fs fs' : FS) (c : ContainerView)
+theorem missing_check_disturbed_ok (H : Bytes → Bytes) (fs fs' : FS) (c : ContainerView)
     (hd : Disturbed fs fs' c) (h : containerCheck H fs c = .ok true) :
     containerCheck H fs' c = .ok true := by
   obtain ⟨hentry, hlocs⟩ := hd
@@ -659,7 +659,7 @@ theorem c11_check_disturbed_ok (H : Bytes → Bytes) (fs fs' : FS) (c : Containe
 /-- … and a content pack that did not verify in `fs` and whose source file is untouched in `fs'`
     still makes the check fail in `fs'`, whatever happened to the other packs (no relation between
     `fs` and `fs'` is needed elsewhere). -/
-theorem c11_check_disturbed_damaged (H : Bytes → Bytes) (fs fs' : FS) (c : ContainerView)
+theorem missing_check_disturbed_damaged (H : Bytes → Bytes) (fs fs' : FS) (c : ContainerView)
     (info : PackInfo) (hmem : info ∈ c.contentInfos)
     (hsrc : (c.Encloses info.uuid ∧ FS.get fs' c.entryFile = FS.get fs c.entryFile) ∨
          (¬ c.Encloses info.uuid ∧
@@ -762,7 +762,7 @@ theorem containerOpen_inv (fs : FS) (entry : String) (c : ContainerView)
 /-- **C11: the container still opens (0).**  A container that opens in `fs` opens to the same view
     in every `fs'` that keeps the entry file and the file holding the *directory* pack (the entry
     file itself when the directory pack is enclosed) — whatever happens to the content packs. -/
-theorem c11_still_opens (fs fs' : FS) (entry : String) (c : ContainerView)
+theorem missing_still_opens (fs fs' : FS) (entry : String) (c : ContainerView)
     (hopen : containerOpen fs entry = .ok c)
     (hentry : FS.get fs' entry = FS.get fs entry)
     (hdir : ∀ di, (c.infos.filter (fun i => i.kind = .directory)).getLast? = some di →
@@ -811,13 +811,13 @@ theorem c11_still_opens (fs fs' : FS) (entry : String) (c : ContainerView)
 
 /-- for a container whose directory pack travels in the entry file, every `Disturbed` file system
     still opens it -/
-theorem c11_still_opens_disturbed (fs fs' : FS) (entry : String) (c : ContainerView)
+theorem missing_still_opens_disturbed (fs fs' : FS) (entry : String) (c : ContainerView)
     (hopen : containerOpen fs entry = .ok c) (hd : Disturbed fs fs' c)
     (hdir : ∀ di, (c.infos.filter (fun i => i.kind = .directory)).getLast? = some di →
       c.Encloses di.uuid) :
     containerOpen fs' entry = .ok c := by
   obtain ⟨_, _, _, _, _, _, _, _, _, _, _, hfile, _⟩ := containerOpen_inv fs entry c hopen
-  apply c11_still_opens fs fs' entry c hopen
+  apply missing_still_opens fs fs' entry c hopen
   · rw [← hfile]; exact hd.1
   · intro di h; exact Or.inl (hdir di h)
 
@@ -945,6 +945,141 @@ theorem disturbed_of (fs' : FS) (he : FS.get fs' "e" = FS.get fs "e")
   · exact Or.inl encloses_1
   · exact Or.inr (Or.inr ha)
   · exact Or.inr (Or.inl hb)
+
+/-! file-system facts of the three scenarios -/
+
+theorem removed_e : FS.get fsRemoved "e" = FS.get fs "e" := FS.get_remove_other fs "a" "e" (by decide)
+theorem removed_b : FS.get fsRemoved "b" = FS.get fs "b" := FS.get_remove_other fs "a" "b" (by decide)
+theorem replaced_e : FS.get fsReplaced "e" = FS.get fs "e" := FS.get_put_other fs "a" "e" _ (by decide)
+theorem replaced_b : FS.get fsReplaced "b" = FS.get fs "b" := FS.get_put_other fs "a" "b" _ (by decide)
+theorem damaged_e : FS.get fsDamaged "e" = FS.get fs "e" := by
+  show FS.get (FS.put (FS.remove fs "a") "b" _) "e" = _
+  rw [FS.get_put_other _ "b" "e" _ (by decide)]
+  exact FS.get_remove_other fs "a" "e" (by decide)
+
+theorem disturbed_removed : Disturbed fs fsRemoved c :=
+  disturbed_of fsRemoved removed_e removed_b unavailable_removed
+theorem disturbed_replaced : Disturbed fs fsReplaced c :=
+  disturbed_of fsReplaced replaced_e replaced_b unavailable_replaced
+
+theorem dir_enclosed : ∀ di, (c.infos.filter (fun i => i.kind = .directory)).getLast? = some di →
+    c.Encloses di.uuid := by
+  intro di h
+  have hd : (c.infos.filter (fun i => i.kind = .directory)).getLast? = some infoD := by rfl
+  rw [hd] at h
+  cases h
+  exact ⟨⟨uu 20, 1381, 233⟩, by rfl⟩
+
+/-! (0) the container still opens, to the same view -/
+
+example : containerOpen fsRemoved "e" = .ok c :=
+  missing_still_opens_disturbed fs fsRemoved "e" c open_fs disturbed_removed dir_enclosed
+example : containerOpen fsReplaced "e" = .ok c :=
+  missing_still_opens_disturbed fs fsReplaced "e" c open_fs disturbed_replaced dir_enclosed
+
+/-! (1) frame: the available packs read as before — pack 3 from its own file, pack 1 from the entry
+    file — with pack 2 removed, respectively replaced -/
+
+theorem found_1 : containerGetPack fs c 1 = .ok (.found (contentPack H 1)) := by rfl
+theorem found_2 : containerGetPack fs c 2 = .ok (.found (contentPack H 2)) := by rfl
+theorem found_3 : containerGetPack fs c 3 = .ok (.found (contentPack H 3)) := by rfl
+
+example : containerGetPack fsRemoved c 3 = .ok (.found (contentPack H 3)) :=
+  missing_available_found fs fsRemoved c 3 _ removed_e
+    (by intro info hi; rw [infoOf_3] at hi; cases hi; exact Or.inr removed_b) found_3
+
+example : containerGetPack fsReplaced c 3 = .ok (.found (contentPack H 3)) :=
+  missing_available_found fs fsReplaced c 3 _ replaced_e
+    (by intro info hi; rw [infoOf_3] at hi; cases hi; exact Or.inr replaced_b) found_3
+
+example : containerGetPack fsDamaged c 1 = .ok (.found (contentPack H 1)) :=
+  missing_available_found fs fsDamaged c 1 _ damaged_e
+    (by intro info hi; rw [infoOf_1] at hi; cases hi; exact Or.inl encloses_1) found_1
+
+example : containerGetPack fsRemoved c 3 = containerGetPack fs c 3 :=
+  missing_frame_agreeOn fs fsRemoved c (fun n => n ≠ "a")
+    (FS.agreeOn_remove fs "a" _ (by simp)) (by decide) 3
+    (by intro info hi; rw [infoOf_3] at hi; cases hi; exact Or.inr (by decide))
+
+/-! (2) missing: pack 2 is reported missing with its description, whether removed or replaced by
+    a different valid pack -/
+
+example : containerGetPack fsRemoved c 2 = .ok (.missing info2) :=
+  missing_missing_of_unavailable fsRemoved c 2 info2 infoOf_2 not_enclosed_2 unavailable_removed
+
+example : containerGetPack fsReplaced c 2 = .ok (.missing info2) :=
+  missing_missing_of_unavailable fsReplaced c 2 info2 infoOf_2 not_enclosed_2 unavailable_replaced
+
+example : containerGetPack fsDamaged c 2 = .ok (.missing info2) :=
+  missing_missing_of_unavailable fsDamaged c 2 info2 infoOf_2 not_enclosed_2 unavailable_damaged
+
+/-! (3) totality, for every pack id at once (the premise holds for ids 1, 2, 3: `found_*`) -/
+
+example : ∀ packId b, containerGetPack fs c packId = .ok (.found b) →
+    containerGetPack fsReplaced c packId = .ok (.found b) ∨
+    ∃ info, c.infoOf packId = some info ∧ containerGetPack fsReplaced c packId = .ok (.missing info) :=
+  fun packId b h => missing_total_found fs fsReplaced c disturbed_replaced packId b h
+
+example : containerGetPack fsRemoved c 2 = .ok (.found (contentPack H 2)) ∨
+    ∃ info, c.infoOf 2 = some info ∧ containerGetPack fsRemoved c 2 = .ok (.missing info) :=
+  missing_total_found fs fsRemoved c disturbed_removed 2 _ found_2
+
+/-! (4) the check -/
+
+theorem manifest_ok : manifestCheck H c.manifest = .ok true := by rfl
+theorem dirPack_ok : packCheck H id c.dirPack = .ok true := by rfl
+theorem check_fs : containerCheck H fs c = .ok true := by rfl
+
+/-- (4a) with pack 2 missing the check still passes: from the per-pack facts … -/
+example : containerCheck H fsRemoved c = .ok true := by
+  apply missing_check_present_ok H fsRemoved c manifest_ok dirPack_ok
+  intro info hi
+  rw [contentInfos_c] at hi
+  simp only [List.mem_cons, List.not_mem_nil, or_false] at hi
+  rcases hi with rfl | rfl | rfl
+  · exact Or.inr ⟨⟨"e", ⟨uu 1, 1614, 233⟩⟩, by rfl, by rfl⟩
+  · exact Or.inl (locate_unavailable fsRemoved c _ _
+      ((not_encloses_iff c _).mpr not_enclosed_2) unavailable_removed)
+  · exact Or.inr ⟨⟨"b", ⟨uu 3, 0, 233⟩⟩, by rfl, by rfl⟩
+
+/-- … or from the verdict on the undisturbed container -/
+example : containerCheck H fsReplaced c = .ok true :=
+  missing_check_disturbed_ok H fs fsReplaced c disturbed_replaced check_fs
+
+theorem located_3_damaged :
+    locate fsDamaged c.entryFile c.entryPacks info3.uuid (locationString info3.location) =
+      .ok (some ⟨"b", ⟨uu 3, 0, 233⟩⟩) := by rfl
+theorem check_3_damaged : locatedCheck H fsDamaged ⟨"b", ⟨uu 3, 0, 233⟩⟩ = .ok false := by rfl
+
+/-- (4b) the earlier pack 2 is missing, the later pack 3 is present and damaged: the check does
+    not pass — the walk does not stop at the missing pack -/
+example : containerCheck H fsDamaged c ≠ .ok true :=
+  missing_check_damaged H fsDamaged c info3 ⟨"b", ⟨uu 3, 0, 233⟩⟩
+    (by rw [contentInfos_c]; simp) located_3_damaged
+    (by rw [check_3_damaged]; intro h; cases h)
+
+/-- and the verdict is exactly `false` -/
+example : containerCheck H fsDamaged c = .ok false := by
+  apply missing_check_damaged_false H fsDamaged c (fun i => i.packId != 3) info3
+    (by rw [contentInfos_c]; simp) (by rfl) manifest_ok dirPack_ok
+  intro info hi
+  rw [contentInfos_c] at hi
+  simp only [List.mem_cons, List.not_mem_nil, or_false] at hi
+  rcases hi with rfl | rfl | rfl
+  · exact Or.inr ⟨⟨"e", ⟨uu 1, 1614, 233⟩⟩, by rfl, by rfl⟩
+  · exact Or.inl ⟨locate_unavailable fsDamaged c _ _
+      ((not_encloses_iff c _).mpr not_enclosed_2) unavailable_damaged, by rfl⟩
+  · exact Or.inr ⟨⟨"b", ⟨uu 3, 0, 233⟩⟩, located_3_damaged, check_3_damaged⟩
+
+/-- the single-pack reading of "the pack verifies": for pack 3 the located check is `Pack::check` -/
+example : locatedCheck H fs ⟨"b", ⟨uu 3, 0, 233⟩⟩ = packCheck H id (contentPack H 3) := by
+  have hsl : slice (bytesOfLocated fs ⟨"b", ⟨uu 3, 0, 233⟩⟩) 0 233 = contentPack H 3 := by rfl
+  have := locatedCheck_content H fs ⟨"b", ⟨uu 3, 0, 233⟩⟩ ⟨uu 3, 0, 233⟩
+    (hdr .content 3 233 132).encode (hdr .content 3 233 132)
+    (hdr .content 3 233 132, ⟨128, 128, 0, 0, zeros 24⟩) (by rfl) (by rfl) (by rfl) rfl (by rfl)
+  rw [this]
+  simp only
+  rw [hsl]
 
 end MissingExample
 
